@@ -20,7 +20,7 @@ RULE = ("(1) EXHAUSTIVE sweep: every Unicode code point (and, for the single-byt
         "PCFGPasswordScorer tables (exact float equality - the writer uses repr); base structures likewise; the trainer's OMEN "
         "IP/CP/LN levels and alphabet must equal what the guesser's load_rules and the scorer's OmenScorer load; config.ini file "
         "lists must equal the directory listings. Non-trivial = value with a non-ASCII or whitespace character, or a ruleset with "
-        ">=3 length files; distinct = code point / hash of (list, options). Scale parts: lists of 40 001 (quick) to 160 001 lines (thorough, > 4 MiB) round-tripped, and a training list of 42 000 distinct passwords (more than 32 768 rows in the OMEN tables) through the trainer and all loaders.")
+        ">=3 length files; distinct = code point / hash of (list, options). Scale parts: lists of 40 001 (quick) to 160 001 lines (thorough, > 4 MiB) round-tripped, each also with every line exactly 32 bytes long (every power-of-two block boundary on a line end), and a training list of 42 000 distinct passwords (more than 32 768 rows in the OMEN tables) through the trainer and all loaders.")
 ASSUMPTIONS = ["supported encodings are the ASCII-compatible ones (utf-8, ascii, latin-1, cp1251, cp1252, koi8-r, iso-8859-2/15)",
                "utf-8-sig: PcfgGrammar as a whole cannot load such a ruleset on the unchanged tree (omen_keyspace.txt); the guesser's load_grammar and load_rules and the scorer's loaders can, and only those are compared for it",
                "a run in which the trainer does not complete is skipped and counted"]
@@ -53,7 +53,7 @@ def roundtrip(values, enc, case):
     path = os.path.join(_dir(), 'rt.txt')
     cnt = Counter()
     for i, v in enumerate(values):
-        cnt[v] = 1 + (i % 3)
+        cnt[v] = 1 if case.get('aligned') else 1 + (i % 3)          # aligned: one probability, so every line has the same length
     total = sum(cnt.values())
     with core.quiet():
         ok = guard(case, calculate_and_save_counter, path, cnt, enc)
@@ -421,6 +421,17 @@ def run_large(rec, seed, shard, nshards, tier):
         rec.case({'lines': n}, True, ['large_file'], key=['large', n])
         if bad:
             raise Violation('value_round_trip', f'a list of {n} values is not read back unchanged: {bad[:4]}', {'values': bad[:50], 'encoding': 'utf-8', 'lines': n})
+        if n > 30000:
+            # the same size again with every line exactly 32 bytes long (value, tab, probability, newline): every power-of-two
+            # block or buffer boundary up to the file size falls on the end of a line - for readers that work block-wise
+            vlen = 32 - 2 - len(repr(1 / n))
+            if 4 <= vlen <= 12:
+                vals = [word(i + 3, vlen) for i in range(n)]
+                bad = find_bad(vals, 'utf-8', dict(case, aligned=True))
+                rec.case({'lines': n, 'line_bytes': 32}, True, ['large_file_lines_of_32_bytes'], key=['large_aligned', n])
+                if bad:
+                    raise Violation('value_round_trip', f'a list of {n} values (every line 32 bytes) is not read back unchanged: {bad[:4]}',
+                                    {'values': bad[:50], 'encoding': 'utf-8', 'lines': n})
 
 
 # ---------------------------------------------------------------- numeric shapes of the probability column
